@@ -199,7 +199,7 @@ Definition with_follow (r : rstate) (f : follow) : rstate :=
 Definition dmarker (s : string) : option (string * mkind) :=
   match split "=" s with
   | [d; "R"] | [d; "Ra"] | [d; "Rp"] | [d; "Rc"] | [d; "Rd"] => let? dn := dstr d in Some (dn, MRestricted)
-  | [d; "U"] | [d; "Ua"] | [d; "Ud"] => let? dn := dstr d in Some (dn, MOther)
+  | [d; "U"] | [d; "Ua"] | [d; "Ud"] | [d; "E"] => let? dn := dstr d in Some (dn, MOther)   (* E: the marker query fails *)
   | _ => None
   end.
 Definition dattr (s : string) : option (string * list string) :=
